@@ -14,7 +14,7 @@ ASSUMPTIONS = [
     "kappa of derived sequences is an uninterpreted function of the derived string (its own correctness is C01/C02): the claim is that kappa is applied to exactly the substituted sequence",
 ]
 OUTSIDE = ["sequences longer than the bound, more pre-existing sites / requested positions than the bound", "non-integer requests (strings, floats)"]
-NMAX = {"quick": 4, "thorough": 6}
+NMAX = {"quick": 4, "thorough": 7}
 KMAX = {"quick": 2, "thorough": 3}
 ITEM_TIMEOUT = {"quick": 900, "thorough": 3400}
 SENT = -10 ** 9
